@@ -113,6 +113,15 @@ theorem step_KPos (cfg : Cfg) (o : Op) (L : Lexer) (h : KPos L) : KPos (step cfg
   case insertModeAt i m => split <;> first | exact { h with } | exact h.panic _
   case checkpoint => exact h.checkpoint
   case clearCheckpoint => exact h.clearCheckpoint
+  case bumpCheckpointModeLen n =>
+    refine { h with cp := ?_ }
+    intro c hc
+    cases hcp : L.cp with
+    | none => simp [hcp] at hc
+    | some c0 =>
+      simp only [hcp, Option.map_some, Option.some.injEq] at hc
+      subst hc
+      exact h.cp c0 hcp
   case rollback => exact h.rollback
   case pushPending b => exact h.pushPendingStat b
   case popPending => exact h.popPendingStat
